@@ -720,6 +720,8 @@ var jsHandSources = []string{
 	"{namespace n}\n/** @param? a */\n{template .t}{for $i in range(1, $a ?: 3, 2)}{isFirst($i) ? 'f' : ''}{isLast($i)}{index($i)}{/for}{isFirst($a)}{/template}\n",
 	"{namespace n}\n/** */\n{template .t}{bidiDirAttr()}{/template}\n",
 	"{namespace n}\n{template .t}{length()}{/template}\n",
+	// the data KEY `length` (`opt_data.a.length`) next to the length FUNCTION (`(opt_data.a).length`): textually distinct since 0a4b4eb
+	"{namespace n}\n/** @param a */\n{template .t}{$a.length}{length($a)}{let $l: $a /}{$l.length}{let $m: $l.length /}{$m}{foreach $i in $a.length}{$i}{/foreach}{/template}\n",
 	"{namespace n}\n{template .t}{round(1, 2, 3)}{keys()}{augmentMap(1, 2, 3, 4)}{bidiDirAttr('x')}{/template}\n",
 	"{namespace n}\n{template .t}{noSuchFunction(1)}{/template}\n",
 	"{namespace n}\n/** @param l */\n{template .t autoescape=\"false\"}{foreach $a in $l}{foreach $b in $l}{$a}{$b}{index($b)}{isLast($a)}{ifempty}e{/foreach}{ifempty}{let $a: 1 /}{$a}{/foreach}{/template}\n",
